@@ -207,6 +207,14 @@ class Walker(object):
         return consts, umembers
 
     # ---- code generation: fill
+    def emit_scalar(self, out, expr, literal, number):
+        out.append('%s = %s;' % (expr, literal))
+
+    def emit_bytes(self, out, expr, data):
+        self.tmp += 1
+        out.append('{ static const uint8_t t%d[] = {%s}; memcpy(%s, t%d, %d); }' % (
+            self.tmp, ','.join(str(b) for b in data), expr, self.tmp, len(data)))
+
     def fill(self, ty, slot, v, out, where):
         t = self.spec.resolve(ty)
         k = t.kind
@@ -217,13 +225,13 @@ class Walker(object):
                 raise LayoutError('%s: scalar expected' % where)
             self.check_scalar(t, slot)
             if k == 'bool':
-                out.append('%s = %s;' % (slot.expr, 'true' if v else 'false'))
+                self.emit_scalar(out, slot.expr, 'true' if v else 'false', 1 if v else 0)
             elif k == 'int':
-                out.append('%s = %s;' % (slot.expr, c_int_literal(v)))
+                self.emit_scalar(out, slot.expr, c_int_literal(v), v)
             elif k == 'bits':
-                out.append('%s = %s;' % (slot.expr, c_int_literal(bits_to_int(v))))
+                self.emit_scalar(out, slot.expr, c_int_literal(bits_to_int(v)), bits_to_int(v))
             else:
-                out.append('%s = %s;' % (slot.expr, self.enum_const(slot, dict(t.items)[v])))
+                self.emit_scalar(out, slot.expr, self.enum_const(slot, dict(t.items)[v]), dict(t.items)[v])
             return
         if slot.kind != 'struct':
             raise LayoutError('%s: struct expected' % where)
@@ -233,11 +241,9 @@ class Walker(object):
                 raise LayoutError('%sbuf is %s[%r], expected uint8_t[%d]' % (slot.prefix, bm.ctype.base, bm.array, t.hi))
             ln = self.length_member(slot, t.lo, t.hi)
             if ln:
-                out.append('%s = %d;' % (ln, len(v)))
+                self.emit_scalar(out, ln, '%d' % len(v), len(v))
             if len(v):
-                self.tmp += 1
-                out.append('{ static const uint8_t t%d[] = {%s}; memcpy(%sbuf, t%d, %d); }' % (
-                    self.tmp, ','.join(str(b) for b in v), slot.prefix, self.tmp, len(v)))
+                self.emit_bytes(out, slot.prefix + 'buf', v)
         elif k == 'seq':
             for m in t.members:
                 cn = canonical(m.name)
@@ -245,7 +251,8 @@ class Walker(object):
                     pm = self.member(slot.members, 'is_%s_present' % cn, slot.prefix)
                     if pm.ctype.base != 'bool':
                         raise LayoutError('%sis_%s_present is not bool' % (slot.prefix, cn))
-                    out.append('%sis_%s_present = %s;' % (slot.prefix, cn, 'true' if m.name in v else 'false'))
+                    self.emit_scalar(out, '%sis_%s_present' % (slot.prefix, cn), 'true' if m.name in v else 'false',
+                                     1 if m.name in v else 0)
                     if m.name not in v:
                         self.member_slot(m.ty, slot.members, slot.prefix, cn)   # layout check only
                         continue
@@ -258,7 +265,7 @@ class Walker(object):
         elif k == 'seqof':
             ln = self.length_member(slot, t.lo, t.hi)
             if ln:
-                out.append('%s = %d;' % (ln, len(v)))
+                self.emit_scalar(out, ln, '%d' % len(v), len(v))
             et = self.spec.resolve(t.elem)
             if et.kind != 'null':
                 em = self.member(slot.members, 'elements', slot.prefix)
@@ -270,7 +277,7 @@ class Walker(object):
         elif k == 'choice':
             consts, umembers = self.choice_parts(t, slot)
             idx = [n for n, _ in t.alts].index(v[0])
-            out.append('%schoice = %s;' % (slot.prefix, consts[idx][0]))
+            self.emit_scalar(out, '%schoice' % slot.prefix, consts[idx][0], consts[idx][1])
             aty = t.alts[idx][1]
             self.fill(aty, self.member_slot(aty, umembers, slot.prefix + 'value.', canonical(v[0])), v[1], out,
                       where + '.' + v[0])
@@ -564,3 +571,15 @@ def driver_main(cases, types, lens, sizes, fuzz_cap=1 << 18):
             ','.join(str(s) for s in ss) or '0', ci, ti, ci, lens[ci], len(ss)))
     out += ['    return 0;', '}']
     return '\n'.join(out)
+
+
+class TreeWalker(Walker):
+    """Same walk as Walker.fill, but collects (C lvalue expression, number)
+    pairs instead of C text (used to build values of the Coq IR)."""
+
+    def emit_scalar(self, out, expr, literal, number):
+        out.append((expr, number))
+
+    def emit_bytes(self, out, expr, data):
+        for i, b in enumerate(data):
+            out.append(('%s[%d]' % (expr, i), b))
